@@ -109,6 +109,42 @@ T = {
  'C18-6': ('parsemsg drops an empty trailing argument', 'IRC message whose last argument is the empty string'),
  'C19-5': ('load_event keeps a string `notify` (event name to notify with)', 'hostile call packet whose notify string cannot be a type name (NUL, lone surrogate) and a handler that returns a value'),
  'C19-6': ('fire-and-forget fast path send_nowait() bypasses the send firewall', 'server side, send firewall that rejects the event, push without result'),
+ 'C01-7': ('unregisterChild no longer marks the root\'s handler cache for refresh', 'an event key dispatched while the unregistration is pending (cached with the leaving component\'s handlers), then the same key again after it left'),
+ 'C01-8': ('HandlerMetaClass ignores the @handler(False) opt-out', 'public method marked @handler(False) and an event named like it'),
+ 'C02-7': ('a flush pass moves at most 256 events into the priority heap', 'more than 256 events queued before a pass with an urgent one far behind'),
+ 'C02-8': ('the stopped test is skipped for handlers that do not take `event`', 'stop() called by a handler without the event parameter (through a kept reference), lower-priority handler present'),
+ 'C03-7': ('_currently_handling published after the locked idle check', 'loop thread pre-empted on the one line between the locked block and the assignment while a firing thread fires'),
+ 'C03-8': ('queue sequence counter becomes read / use / write-back', 'loop thread pre-empted inside its own append(), a firing thread completes two fires, loop writes the stale counter back, the same thread fires again before the next pass'),
+ 'C04-7': ('finished generator task not unregistered while a sibling is suspended (double decrement of waitingHandlers)', 'success=True and two generator handlers on one event finishing two or more ticks apart'),
+ 'C04-8': ('dispatcher fast path for handler-less events calls _effectDone instead of _eventDone', 'success=True on an event whose handler lookup is completely empty'),
+ 'C05-7': ('a raising generator step declares the event done at once (waitingHandlers = 0)', 'two generator handlers on one event: one raises while the other is still suspended and fires events later'),
+ 'C05-8': ('dispatcher keeps the previous handler\'s return value when a handler raises', 'a handler returning a generator invoked immediately before a handler that raises'),
+ 'C06-7': ('timed-out wait() on a not yet dispatched event keeps its <name>_done handler', 'wait() with a timeout that expires before the awaited event has been dispatched'),
+ 'C06-8': ('a handler resumed from call()/wait() that continues with a bare yield is never stepped again', 'call/wait, then one or more bare yields'),
+ 'C07-7': ('registerChild refuses a new child when the parent\'s unregistration is pending, after register() rewired the child', 'register(c, p) while p.unregister() is pending'),
+ 'C07-8': ('unregistered(c, root) instead of unregistered(c, parent)', 'unregister from a non-root parent and an observer that reads the second argument'),
+ 'C08-7': ('KeyboardInterrupt and SystemExit from a generator step folded into one except clause using e.code', 'KeyboardInterrupt raised from a step of a generator handler'),
+ 'C08-8': ('exit code stored by stop() only (returns early when not running)', 'plain stop first, then SystemExit(code) raised during the drain'),
+ 'C09-7': ('one clock reading per loop iteration, stamped when generate_events is created', 'a handler that consumes time in the same batch with a timer expiry inside that window'),
+ 'C09-8': ('a timer is no longer due AT its expiry (>= became >)', 'clock reading exactly equal to the expiry (interval 0, or a sleep that ends exactly there)'),
+ 'C10-7': ('Poll/EPoll forget the descriptor before firing _disconnect: the event loses its addressee', 'writer-only descriptor whose peer hangs up, poller not a child of the owner'),
+ 'C10-8': ('Poll/EPoll: no _write once the peer hung up', 'descriptor registered as reader and writer, peer fully hung up'),
+ 'C11-7': ('Client.__on_write decides on the popped payload instead of the buffer', 'write(b\'\') that is not the last entry of the buffer'),
+ 'C11-8': ('Server: a fatal send error calls the deferring close() instead of error + _close()', 'payload buffered behind the failing one and a send script that accepts again after EPIPE/ECONNRESET'),
+ 'C12-7': ('failed send reports error AFTER disconnect', 'peer resets while the server has output queued'),
+ 'C12-8': ('Server._on_write decides "queue drained" before the send', 'partial send of the last queued payload, then a graceful end'),
+ 'C13-7': ('"no body" decided once at message begin, ignoring chunked', 'chunked request and a read boundary exactly at the end of the header block'),
+ 'C13-8': ('early "not a request line" check applied to an incomplete first read', 'read boundary inside the method token'),
+ 'C14-7': ('SSL-hello test applied to every read while the header block is incomplete', 'continuation read that starts with a byte >= 0x80'),
+ 'C14-8': ('Content-Length no longer converted by the HTTP component', 'non-numeric / conflicting Content-Length with the read that completes the headers ending at the blank line'),
+ 'C15-7': ('rest of a partially sent buffer re-queued at the wrong end', 'partial send with another buffer queued behind it (chunked generator, streamed file, slow reader)'),
+ 'C15-8': ('prepare() writes the Connection header from a stale snapshot of close', 'keep-alive request, body of unknown length, no chunked available (HTTP/1.0 keep-alive, HEAD)'),
+ 'C17-7': ('header-complete check forgets the mask bit', 'masked frame with a 16/64-bit length and a read boundary inside the extended length'),
+ 'C17-8': ('answering the peer\'s close no longer marks the close as sent', 'peer closes first, the codec answers, then the application writes'),
+ 'C18-7': ('splitLines rewritten with bytes.splitlines()', 'a CR not followed by LF inside a line'),
+ 'C18-8': ('the newline check of Message skips the middle arguments', 'CR/LF in a non-last argument without a space'),
+ 'C19-7': ('one escaped tilde per delimiter (str.replace does not overlap)', 'a run of 4+ tildes (n % 3 != 0) in an argument or result'),
+ 'C19-8': ('results routed by node_sock instead of the Protocol object', 'a node with two outgoing connections and calls coming back over them'),
  'C18-2': ('_check_args rewritten with regexes using $ (matches before a trailing newline)', 'command / prefix / argument ending in a single LF'),
 }
 rows = []
